@@ -318,7 +318,9 @@ func cmdCheck(repo, root string, args []string) int {
 		if fs := w.Specs[key]; fs != nil && fs.Trusted && r != nil {
 			for sub, val := range standInOf {
 				if strings.Contains(shortKey(key), sub) {
-					standNames[val] = true
+					for _, one := range strings.Split(val, "|") {
+						standNames[one] = true
+					}
 					standFor = append(standFor, shortKey(key))
 				}
 			}
